@@ -8,6 +8,8 @@ import DTML.Render
 import DTML.Props.C08
 import DTML.Props.C11
 import DTML.Props.C02
+import DTML.GenIn
+import DTML.Lemmas.InGen
 set_option linter.unusedVariables false
 namespace DTML.Props.C10
 open DTML.Render
@@ -681,5 +683,44 @@ end Batched
 theorem gen_item_lookup_is_model (env : Env) (v : Val) (cache : List (Text × Val)) (key : Text) (tr : List Event) :
     GenNs.instGetitemGen env v cache key tr = frameGet env (.inst v cache) key tr :=
   C02.gen_instancedict_getitem_is_model env v cache key tr
+
+/-! ### The loop of `InClass.renderwob`, translated from the source on every run (GenIn.lean), is the interpreter's `inLoop`
+
+The translation keeps `sequence-start` as the source does - a stored flag, cleared after element 0 has been rendered or when
+element 1 is skipped as unauthorized - where the interpreter computes it from the refusals (`startedAt`); the hypothesis says
+the stored flag is right on entry (it is `true` at index 0: the prologue's fresh `sequence_variables`). -/
+
+/-- one pass through the body of `for index in range(l_)` (the flags stored, the element fetched - through the item guard when
+one is installed -, the tuple convention, what is pushed and popped around `render_blocks(section, md)`, `continue` / the
+re-raised ValidationError) is one unfolding of `inLoop`, for every element, namespace and option set -/
+theorem gen_in_step_is_model (env : Env) (fuel : Nat) (o : InOpts) (body : List Blk) (sv : SeqVars) (i : Nat) (st : St)
+    (hi : i < sv.items.length) (hs : sv.started = startedAt env o sv i) :
+    inLoop env (fuel + 1) sv o body i st =
+      GenIn.inCont (GenIn.inStepGen env fuel o body sv i st) (fun sv' st' => inLoop env fuel sv' o body (i + 1) st') :=
+  Lemmas.InGen.in_step_eq env fuel o body sv i st hi hs
+
+/-- a pass hands on the same sequence and the flag the interpreter computes for the next element -/
+theorem gen_in_step_keeps_start (env : Env) (fuel : Nat) (o : InOpts) (body : List Blk) (sv : SeqVars) (i : Nat) (st : St)
+    (hi : i < sv.items.length) (hs : sv.started = startedAt env o sv i) (sv' : SeqVars)
+    (h : Lemmas.InGen.stepVars (GenIn.inStepGen env fuel o body sv i st) = some sv') :
+    sv'.items = sv.items ∧ sv'.started = startedAt env o sv' (i + 1) :=
+  Lemmas.InGen.step_keeps env fuel o body sv i st hi hs sv' h
+
+/-- the loop as the source runs it (index `i`, `i + 1`, … while `index < l_`, the pieces appended in order) is `inLoop` -/
+theorem gen_in_loop_is_model (env : Env) (o : InOpts) (body : List Blk) (fuel : Nat) (sv : SeqVars) (i : Nat) (st : St)
+    (hs : sv.started = startedAt env o sv i) :
+    GenIn.inLoopGen env fuel o body sv i st = inLoop env fuel sv o body i st :=
+  Lemmas.InGen.in_loop_eq env o body fuel sv i st hs
+
+/-- from the first index of `range(l_)`, on the variables the prologue of dtml-in builds (`renderIn` / `renderInX` start
+`inLoop` on exactly these) -/
+theorem gen_in_loop_from_start (env : Env) (o : InOpts) (body : List Blk) (fuel : Nat) (xs : List Val) (st : St) :
+    GenIn.inLoopGen env fuel o body { items := xs, mapping := o.mapping, prefix_ := o.prefix_ } GenIn.inLoopStart st =
+      inLoop env fuel { items := xs, mapping := o.mapping, prefix_ := o.prefix_ } o body 0 st :=
+  Lemmas.InGen.in_loop_eq env o body fuel _ 0 st rfl
+
+/-- non-vacuity of the hypothesis past index 0: with a refused first element that is skipped the flag is still set at element 1 -/
+example : startedAt { guardOn := true, deniedItems := [7] } { skipUnauth := true }
+    { items := [.obj 7 [], .int 1] } 1 = true := by decide
 
 end DTML.Props.C10
